@@ -701,6 +701,38 @@ pub fn random_shared_term(rng: &mut Rng, pool: &Pool) -> T {
 /// Operands that share a compound sub-term: f(R) op g(R) with f, g loops over the same body R (the
 /// hash-consed body is the very same object in both operands, which is what rules about "the same
 /// body" key on), R ambiguous in its number of repetitions.
+/// Concatenations that share a head (or a tail) of VARIABLE length, combined by intersection / difference / union:
+/// concatenation distributes over union only - the shared part may consume different amounts in the operands.
+pub fn common_factor_family(pool: &Pool) -> Vec<T> {
+    let (a, bb) = (T::Chr(pool.a), T::Chr(pool.b));
+    let ab = T::Str(vec![pool.a, pool.b]);
+    let shared: Vec<T> = vec![
+        T::Plus(b(&a)), T::Loop(b(&a), 1, Some(2)), T::Alt2(b(&a), b(&ab)), T::Cat2(b(&a), Box::new(T::Opt(b(&a)))),
+        T::Plus(Box::new(T::Rng(pool.a, pool.b))), T::Star(b(&a)), T::Str(vec![pool.a, pool.a]),
+    ];
+    let rest: Vec<T> = vec![
+        bb.clone(), T::Cat2(b(&T::AllChar), b(&bb)), ab.clone(), T::Cat2(b(&T::All), b(&bb)),
+        T::Alt2(b(&a), b(&bb)), T::Cat2(b(&a), b(&bb)),
+    ];
+    let mut v = vec![];
+    for h in &shared {
+        for (i, s1) in rest.iter().enumerate() {
+            for s2 in rest.iter().skip(i + 1) {
+                let (x, y) = (T::Cat2(b(h), b(s1)), T::Cat2(b(h), b(s2)));
+                v.push(T::And2(b(&x), b(&y)));
+                v.push(T::Diff1(b(&x), b(&y)));
+                let (x2, y2) = (T::Cat2(b(s1), b(h)), T::Cat2(b(s2), b(h)));
+                v.push(T::And2(b(&x2), b(&y2)));
+                if i == 0 {
+                    v.push(T::AndL(vec![x.clone(), y.clone(), T::Cat2(b(h), b(&T::All))]));
+                    v.push(T::Cat2(b(&bb), Box::new(T::And2(b(&x), b(&y)))));
+                }
+            }
+        }
+    }
+    v
+}
+
 pub fn shared_subterm_family(pool: &Pool) -> Vec<T> {
     let (a, bb) = (T::Chr(pool.a), T::Chr(pool.b));
     let bodies: Vec<T> = vec![
